@@ -34,7 +34,9 @@ CLAIM = {
             'cast with positive feeds (soundness), it rejects nothing else (completeness), a non-finite entry anywhere rejects the '
             'whole call before anything is appended, and for every history of accepted / rejected calls all recorded feeds are '
             'positive (induction over the history); printing raises on non-finite arguments and is otherwise the compiler model\'s '
-            'formatting; a zero-offset S-bend is the limit case (zero length). PARTIAL: the floating-point arithmetic inside the '
+            'formatting; degenerate requests are their limit cases over the reals: a zero-offset S-bend, coupler and interferometer do not '
+            'move, an arc of zero sweep is its start point at every sample, a sinusoidal segment with zero offsets is the straight line. '
+            'PARTIAL: the floating-point arithmetic inside the '
             'builders is runtime behaviour; it is tied by the degenerate-argument grid on the real builders and compiler every run.',
     'note': 'Trusted: Lean kernel/Mathlib; Model/Finite.lean tied differentially to add_path; IEEE arithmetic of numpy not modelled.',
     'technique': 'Lean 4 proof (guard soundness/completeness, invariant by induction over histories) + degenerate-argument grid on the implementation',
